@@ -54,7 +54,7 @@ def interpret_curl(argv):
                     out["header_files"].append(v[1:])
                 elif ":" in v:
                     name, val = v.split(":", 1)
-                    val = val.lstrip(" \t")
+                    val = val.lstrip(" \t\r\n\v\f")  # curl skips ISSPACE() characters after the colon
                     if val == "":
                         out["removed"].append(name)
                     else:
